@@ -118,7 +118,9 @@ def strip(sp):
 
 @st.composite
 def cases(draw):
-    root = draw(st.sampled_from(["dataset", "dataset", "dataset", "eml", "project", "dataTable", "attributeList"]))
+    from vf.pre import Pre
+    pre = Pre(draw, 64)     # control choices first (vf/pre.py)
+    root = pre.pick(["dataset", "dataset", "dataset", "eml", "project", "dataTable", "attributeList"])
     sp = draw(treegen.valid_spec(element=root, max_nodes=50, avoid=(REF,)))
     strip(sp)
     capable = set(ref_rules())
@@ -131,7 +133,7 @@ def cases(draw):
             continue
         for i in range(len(kids) - 1, -1, -1):
             c = kids[i]
-            if T.known.get(c["n"]) in capable and draw(st.integers(0, 2)) == 0:
+            if T.known.get(c["n"]) in capable and pre.chance(2):
                 w = [k["n"] for k in kids]
                 w2 = w[:i] + [c["n"]] + w[i:]
                 spec, alpha, mixed, dfa = T.lang(T.known[s["n"]])
@@ -153,8 +155,12 @@ def cases(draw):
         lst = by_rule[rn]
         if len(lst) < 2:
             continue
-        k = draw(st.integers(0, 7)) % min(3, len(lst) - 1) + (0 if draw(st.integers(0, 7)) == 0 else 1)
-        idxs = sorted(draw(st.permutations(range(len(lst))))[:k])
+        k = pre.int(0, min(3, len(lst) - 1) - 1) + (0 if pre.chance(8) else 1)
+        order_ = list(range(len(lst)))
+        for a in range(len(order_) - 1):      # Fisher-Yates from the pre-drawn integers
+            b = pre.int(a, len(order_) - 1)
+            order_[a], order_[b] = order_[b], order_[a]
+        idxs = sorted(order_[:k])
         for i in idxs:
             p, s = lst[i]
             if any(inside(p, q) or inside(q, p) for q in tpaths):
@@ -171,29 +177,31 @@ def cases(draw):
         for p, s in by_rule[rn]:
             if any(inside(p, q) or inside(q, p) for q in tpaths) or any(inside(p, q) or inside(q, p) for q in rpaths):
                 continue
-            if draw(st.integers(0, 3)) == 0:
+            if pre.chance(4):
                 continue
             tail = ref_tail(s["n"])
             if tail is None:
                 continue
-            tp, ts, ident = targets[rn][draw(st.integers(0, len(targets[rn]) - 1))]
+            tp, ts, ident = pre.pick(targets[rn])
             s["k"] = [{"n": REF, "c": ident}] + [full_spec(a) for a in tail]
             s.pop("c", None)
             refs.append((p, s, ident))
             rpaths.append(p)
     fault = None
-    f = draw(st.integers(0, 5))
-    if f == 0 and refs:
-        j = draw(st.integers(0, len(refs) - 1))
+    f = pre.int(0, 5)
+    if f <= 1 and refs:
+        j = pre.int(0, len(refs) - 1)
+        if j == 0 and len(refs) >= 2 and pre.chance(2):
+            j = pre.int(1, len(refs) - 1)   # the atomicity clause bites when resolvable references precede the fault
         order = sorted(range(len(refs)), key=lambda i: refs[i][0])
-        refs[order[j]][1]["k"][0]["c"] = draw(st.sampled_from(["zzMissing", "", "id", "ID0", "id0 "]))
+        refs[order[j]][1]["k"][0]["c"] = pre.pick(["zzMissing", "", "id", "ID0", "id0 "])
         fault = {"kind": "dangling", "position": j, "of": len(refs)}
-    elif f == 1 and nid:
+    elif f == 2 and nid:
         holders = [s for _, s in treegen.spec_nodes(sp) if "id" in R.rules_dict.get(T.known.get(s["n"], ""), [{}])[0]
                    and "id" not in s.get("a", {}) and s["n"] != REF]
         if holders:
-            h = holders[draw(st.integers(0, len(holders) - 1))]
-            h.setdefault("a", {})["id"] = f"id{draw(st.integers(0, nid - 1))}"
+            h = pre.pick(holders)
+            h.setdefault("a", {})["id"] = f"id{pre.int(0, nid - 1)}"
             fault = {"kind": "duplicate-id"}
     return sp, fault
 
